@@ -33,6 +33,14 @@ func payload(n int) []byte {
 	for i := range b {
 		b[i] = byte((i*7 + 3) % 256)
 	}
+	// byte pairs that line disciplines and protocol filters like to touch: CR NUL, CR LF, doubled 0xFF, an escape
+	// sequence, NUL CR -- at two places when there is room
+	special := []byte("\r\x00\r\n\xff\xff\x1b[0m\x00\r")
+	for _, at := range []int{n / 3, n - len(special) - 1} {
+		if at >= 0 && at+len(special) <= n && n >= 2*len(special) {
+			copy(b[at:], special)
+		}
+	}
 	return b
 }
 
